@@ -111,7 +111,7 @@ def _worker_obs(chunk):
         ctxs = cases_for(prog)
         if len(prog) <= 2 or prog in SAME_FAMILY_PROGS:
             full = ctxs[-1]
-            ctxs = ctxs + [{**full, "__exotic__": True}]
+            ctxs = ctxs + [{**full, "__exotic__": True}, {**full, **gen.WIDE_CONTEXT}]
             ctxs = ctxs + [{**full, "__exoticparam__": (k, name)} for k in sorted(full) for name in exotic_param_values()]
         for ctx in ctxs:
             if ctx.get("__exotic__"):
@@ -303,7 +303,7 @@ def check(tier: str, seed: int) -> Result:
     else:
         progs = gen.programs(ALPHA_FULL, [1, 2, 3])
         dets = lambda i: DETAILS  # noqa: E731
-    progs = list(progs) + list(SAME_FAMILY_PROGS) + list(gen.MENU_PROGS)
+    progs = list(progs) + list(SAME_FAMILY_PROGS) + list(gen.MENU_PROGS) + list(gen.LONG_PROGS)
     jobs = [(p, dets(i)) for i, p in enumerate(sorted(set(progs)))]
     jobs = core.seeded_order(jobs, seed)
     viols: List[Violation] = []
